@@ -106,6 +106,10 @@ def parse_then_sec(b):
 def parse_coords(b):
     """coordinates of the point a SEC string decodes to (a rejected string raises)"""
     p = S256Point.parse(b)
+    if p.x is None:
+        # the decoder handed back the point at infinity: no SEC string encodes it, so this is an ACCEPTED non-point
+        # (reported as the impossible coordinates (-1, -1), which every clause about decoded coordinates refutes)
+        return -1, -1
     return p.x.num, p.y.num
 
 
